@@ -242,3 +242,135 @@ Proof.
   split; [exact R|]. split; [exists (v_trace v0); exact R|].
   apply reachable_Inv. exists (v_trace v0). exact R.
 Qed.
+
+(** * the search over a burst misses nothing
+
+    [explains d s vb pend]: from model state [s] (version bijection [vb], actions
+    [pend] not yet applied) there is an interleaving of at most [d] nodes --
+    at every node either one of the pending actions that may come next
+    ([picks]: the first one if one goroutine issued them, otherwise any, starts in issue
+    order) with its observed result, or one label that some call can take ([all_enabled]
+    = the [enabled_of] of every call) -- that ends with nothing pending, no call able to
+    move, and the acceptance test (the comparison with the observation) passed; along it no
+    call returned anything the observation does not contain ([alive]; results are final,
+    [C07_wait_done_final], so such a branch could not end in agreement anyway). *)
+Inductive explains {X} (ordered : bool) (alive : st -> bool) (accept : st -> bij -> option X)
+  : nat -> st -> bij -> list sop -> Prop :=
+| ex_done : forall s vb x,
+    alive s = true -> all_enabled s = [] -> accept s vb = Some x ->
+    explains ordered alive accept 1 s vb []
+| ex_act : forall d s vb pend a rest s1 vb1 ls1,
+    alive s = true -> In (a, rest) (picks ordered pend) -> apply_sop s vb a = Some (s1, vb1, ls1) ->
+    explains ordered alive accept d s1 vb1 rest ->
+    explains ordered alive accept (S d) s vb pend
+| ex_int : forall d s vb pend l s1,
+    alive s = true -> In l (all_enabled s) -> step s l = Some s1 ->
+    explains ordered alive accept d s1 vb pend ->
+    explains ordered alive accept (S d) s vb pend.
+
+Lemma first_some_in : forall {A B} (f : A -> option B) l x y,
+  In x l -> f x = Some y -> exists y', first_some f l = Some y'.
+Proof.
+  intros A B f. induction l as [|x0 tl IH]; intros x y Hin Hf; [destruct Hin|].
+  cbn [first_some]. destruct (f x0) as [y0|] eqn:E; [eauto|].
+  destruct Hin as [->|Hin]; [rewrite Hf in E; discriminate|]. eapply IH; eauto.
+Qed.
+
+Lemma picks_nil : forall ordered, picks ordered [] = [].
+Proof. intros [|]; reflexivity. Qed.
+
+(** whatever explanation exists within the depth bound, the label-by-label search returns one *)
+Theorem search_complete : forall {X} ordered alive (accept : st -> bij -> option X) d s vb pend,
+  explains ordered alive accept d s vb pend ->
+  forall fuel acc, d <= fuel -> exists r, search fuel single ordered alive accept s vb pend acc = Some r.
+Proof.
+  intros X ordered alive accept d s vb pend E.
+  induction E as [s vb x Hal Hen Hacc|d s vb pend a rest s1 vb1 ls1 Hal Hin Hap _ IH|d s vb pend l s1 Hal Hin Hst _ IH];
+    intros fuel acc Hle; (destruct fuel as [|f]; [lia|]); cbn [search]; rewrite Hal.
+  - rewrite Hen, Hacc. eauto.
+  - assert (Hp : exists r, first_some (fun p =>
+             match apply_sop s vb (fst p) with
+             | Some (s1, vb1, ls1) => search f single ordered alive accept s1 vb1 (snd p) (rev_append ls1 acc)
+             | None => None
+             end) (picks ordered pend) = Some r).
+    { destruct (IH f (rev_append ls1 acc)) as [r Hr]; [lia|].
+      eapply first_some_in; [exact Hin|]. cbn [fst snd]. rewrite Hap. exact Hr. }
+    destruct Hp as [r Hp].
+    destruct pend as [|a0 p0]; [rewrite picks_nil in Hin; destruct Hin|].
+    rewrite Hp. destruct (all_enabled s); eauto.
+  - assert (Hp : exists r, first_some (fun l =>
+             match run s (single l) with
+             | Some s1 => search f single ordered alive accept s1 vb pend (rev_append (single l) acc)
+             | None => None
+             end) (all_enabled s) = Some r).
+    { destruct (IH f (rev_append (single l) acc)) as [r Hr]; [lia|].
+      eapply first_some_in; [exact Hin|]. unfold single at 1. cbn [run]. rewrite Hst. exact Hr. }
+    destruct Hp as [r Hp]. cbv zeta.
+    destruct (all_enabled s) as [|l0 en] eqn:Een; [destruct Hin|].
+    match goal with |- exists r0, match ?p with [] => _ | _ :: _ => ?B end = Some r0 =>
+      assert (Hb : exists r0, B = Some r0) end.
+    { match goal with |- exists r0, match ?a with Some r1 => Some r1 | None => _ end = Some r0 =>
+        destruct a as [r1|]; [eauto|] end. rewrite Hp. eauto. }
+    destruct pend; exact Hb.
+Qed.
+
+(** so a burst is rejected only if it has no explanation (of depth up to the second fuel) *)
+Lemma check_step_gen_burst_complete : forall f1 f2 keys v ordered acts o d,
+  check_step_gen f1 f2 keys v (mkBurst ordered acts o) = None -> d <= f2 ->
+  ~ explains ordered (fun s2 => rets_possible (v_st v) s2 o)
+             (fun s2 vb1 => obs_match keys (v_st v) s2 vb1 (v_cb v) o) d (v_st v) (v_vb v) acts.
+Proof.
+  intros f1 f2 keys v ordered acts o d H Hd E. unfold check_step_gen, explain_burst_gen in H.
+  destruct (search_complete _ _ _ _ _ _ _ E f2 [] Hd) as [[[s2 [vb' cb']] ls] Hr].
+  rewrite Hr in H.
+  destruct (search f1 macro_of ordered (fun s2 => rets_possible (v_st v) s2 o)
+              (fun s2 vb1 => obs_match keys (v_st v) s2 vb1 (v_cb v) o) (v_st v) (v_vb v) acts [])
+    as [[[s3 [vb3 cb3]] ls3]|]; discriminate.
+Qed.
+
+Theorem check_step_burst_complete : forall keys v ordered acts o d,
+  check_step keys v (mkBurst ordered acts o) = None -> d <= 2 * burst_fuel ->
+  ~ explains ordered (fun s2 => rets_possible (v_st v) s2 o)
+             (fun s2 vb1 => obs_match keys (v_st v) s2 vb1 (v_cb v) o) d (v_st v) (v_vb v) acts.
+Proof. intros keys v ordered acts o d. unfold check_step. apply check_step_gen_burst_complete. Qed.
+
+(** and conversely what the label-by-label search returns is such an explanation *)
+Theorem search_explains : forall {X} ordered alive (accept : st -> bij -> option X) fuel s vb pend acc r,
+  search fuel single ordered alive accept s vb pend acc = Some r ->
+  exists d, d <= fuel /\ explains ordered alive accept d s vb pend.
+Proof.
+  intros X ordered alive accept. induction fuel as [|f IH]; intros s vb pend acc r H;
+    cbn [search] in H; [discriminate|].
+  destruct (alive s) eqn:Hal; [|discriminate]. cbv zeta in H.
+  assert (Hmove :
+    match first_some (fun p =>
+             match apply_sop s vb (fst p) with
+             | Some (s1, vb1, ls1) => search f single ordered alive accept s1 vb1 (snd p) (rev_append ls1 acc)
+             | None => None
+             end) (picks ordered pend) with
+    | Some r => Some r
+    | None =>
+        first_some (fun l =>
+             match run s (single l) with
+             | Some s1 => search f single ordered alive accept s1 vb pend (rev_append (single l) acc)
+             | None => None
+             end) (all_enabled s)
+    end = Some r -> exists d, d <= S f /\ explains ordered alive accept d s vb pend).
+  { clear H. intros H.
+    match type of H with match ?a with _ => _ end = _ => destruct a as [r0|] eqn:E1 end.
+    - destruct (first_some_some _ _ _ E1) as ([a rest] & Hin & Hp). cbn [fst snd] in Hp.
+      destruct (apply_sop s vb a) as [[[s1 vb1] ls1]|] eqn:Ea; [|discriminate].
+      destruct (IH _ _ _ _ _ Hp) as (d & Hd & He).
+      exists (S d). split; [lia|]. eapply ex_act; eauto.
+    - destruct (first_some_some _ _ _ H) as (l & Hin & Hl).
+      unfold single at 1 in Hl. cbn [run] in Hl.
+      destruct (step s l) as [s1|] eqn:Es; [|discriminate].
+      destruct (IH _ _ _ _ _ Hl) as (d & Hd & He).
+      exists (S d). split; [lia|]. eapply ex_int; eauto. }
+  destruct pend as [|a pend'].
+  - destruct (all_enabled s) as [|l en] eqn:Een.
+    + destruct (accept s vb) as [x0|] eqn:Ea; [|discriminate].
+      exists 1. split; [lia|]. eapply ex_done; eauto.
+    + apply Hmove. exact H.
+  - apply Hmove. destruct (all_enabled s); exact H.
+Qed.
